@@ -31,6 +31,15 @@ def scenarios(tier):
     L.append((SC.scn("two-exits-then-locked-j3", tw, ["redo --no-log y", "redo --no-log -j3 x1 x2 y"],
                      visible=SC.TOKENS + ["lock-try"]), 1 if q else 2))
     L.append((SC.scn("cross-src-j2", w["cross-src"], ["redo --no-log -j2 p q"], visible=SC.TOKENS + ["lock-try"]), 1 if q else 2))
+    # a script that wrecks the place of its own target (its parent directory becomes a regular file) while a sibling job is
+    # still running: that job fails -- redo itself must neither abort nor abandon the sibling
+    ww = _W("wreck", {"s": ["0", "1"], "d/k": ["0"]},
+            {"default.bad.do": [_S(deps=["s"], wreck="d")], "slow.do": [_S(deps=["s"], out="file")]},
+            ["d/q.bad", "slow"], ["slow"])
+    L.append((SC.scn("script-replaces-its-targets-directory-j2", ww, ["redo --no-log -j2 d/q.bad slow"], visible=SC.TOKENS,
+                     may_fail=True), 1 if q else 2))
+    L.append((SC.scn("script-replaces-its-targets-directory-j1", ww, ["redo --no-log d/q.bad slow"], visible=SC.TOKENS,
+                     may_fail=True), 0 if q else 1))
     # (5) all-success graphs at -j2 / -j3
     L.append((SC.scn("diamond-j2", w["diamond"], ["redo --no-log -j2 top"], visible=SC.TOKENS), 1 if q else 2))
     # several children exiting between two wake-ups of their parent (default schedule: the parent parks, all children finish)
@@ -97,7 +106,7 @@ def holds_unrecorded_while_waiting(scn, res):
 
 def oracle(scn, res):
     out = holds_unrecorded_while_waiting(scn, res) if res["verdict"] in ("done", "deadlock") else []
-    if res["verdict"] == "done" and scn["name"] not in ("failfan-j2",):
+    if res["verdict"] == "done" and scn["name"] not in ("failfan-j2",) and not scn.get("may_fail"):
         # every script in these scenarios succeeds: every invocation must exit 0
         for n, rc in res["roots"].items():
             if rc != 0:
